@@ -1,14 +1,4 @@
 // ---------------------------------------------------------------- U-elim: trusted std wrappers and the epsilon-elimination automaton
-pub struct Minimizer;
-/// what Minimizer::minimize returns (minimizer.rs is not under contract: property C03 is not decided)
-pub uninterp spec fn spec_minimize(d: CompiledDfa) -> CompiledDfa;
-impl Minimizer {
-    #[verifier::external_body]
-    pub fn minimize(dfa: CompiledDfa) -> (r: CompiledDfa)
-        ensures r == spec_minimize(dfa)
-    { unimplemented!() }
-}
-
 pub broadcast axiom fn axiom_fx_valid()
     ensures #[trigger] vstd::std_specs::hash::builds_valid_hashers::<rustc_hash::FxBuildHasher>();
 /// BTreeSet<StateID> as a hash key: Eq/Hash are those of the element set (two keys with the same elements are the same key)
